@@ -1,8 +1,12 @@
 package main
 
 import (
+	"sort"
+
 	"verif/harness/hx"
 )
+
+func sortStrings(s []string) { sort.Strings(s) }
 
 func op(c int) Step       { return Step{Conn: c, Kind: "open"} }
 func cl(c int) Step       { return Step{Conn: c, Kind: "close"} }
@@ -10,12 +14,184 @@ func tk(c, t, a int) Step { return Step{Conn: c, Kind: "tok", T: t, A: a} }
 func connID(k int) int    { return 17 * (k + 1) }    // distinct IP, port and destination address per session
 func connID6(k int) int   { return 4096 + 17*(k+1) } // the same with an IPv6 client address
 
-// a session id: IPv4 or IPv6 client
+// a session id: the k-th host of the scenario in one of the address families (IPv4 in 4 bytes, IPv4
+// in 16 bytes, IPv6 global, link-local with zone, IPv6 with the low bytes of the IPv4 host); its
+// source port is its own or - now and then - one that other sessions of the scenario use as well
 func pickID(r *hx.Rand, k int) int {
-	if r.Chance(1, 3) {
-		return connID6(k)
+	h, slot := k+1, k+1
+	if r.Chance(1, 4) {
+		slot = 9
 	}
-	return connID(k)
+	switch r.Intn(9) {
+	case 0, 1:
+		return id6(h, slot)
+	case 2:
+		return idOf(famMapped, h, slot)
+	case 3:
+		return idOf(famLL, h, slot)
+	case 4:
+		return idOf(famLow4, h, slot)
+	}
+	return idOf(famV4, h, slot)
+}
+
+// ---- the ADDRESS dimension: pairs of client addresses that differ in one respect only ----
+type addrPair struct {
+	name     string
+	a, b     int
+	sameHost bool // one IP (the rate limiter's bucket is shared by design)
+	samePeer bool // one IP and one port, spelt in 4 and in 16 bytes: ONE peer for the unchanged code
+}
+
+func addrPairs() []addrPair {
+	const s = 5 // the source port slot both use
+	v4, mp, ll, lw := famV4, famMapped, famLL, famLow4
+	return []addrPair{
+		{name: "ipv6-other-host-same-port", a: id6(1, s), b: id6(2, s)},
+		{name: "ipv6-same-host-other-port", a: id6(1, s), b: id6(1, s+1), sameHost: true},
+		{name: "ipv4-other-host-same-port", a: idOf(v4, 1, s), b: idOf(v4, 2, s)},
+		{name: "ipv4-same-host-other-port", a: idOf(v4, 1, s), b: idOf(v4, 1, s+1), sameHost: true},
+		{name: "ipv4-in-4-and-in-16-bytes-same-port", a: idOf(v4, 1, s), b: idOf(mp, 1, s), sameHost: true, samePeer: true},
+		{name: "ipv4-in-4-and-in-16-bytes-other-port", a: idOf(v4, 1, s), b: idOf(mp, 1, s+1), sameHost: true},
+		{name: "ipv4-and-v4-mapped-other-host-same-port", a: idOf(v4, 1, s), b: idOf(mp, 2, s)},
+		{name: "v4-mapped-other-host-same-port", a: idOf(mp, 1, s), b: idOf(mp, 2, s)},
+		{name: "ipv4-and-ipv6-same-low-bytes-same-port", a: idOf(v4, 1, s), b: idOf(lw, 1, s)},
+		{name: "v4-mapped-and-ipv6-same-low-bytes-same-port", a: idOf(mp, 1, s), b: idOf(lw, 1, s)},
+		{name: "ipv6-low-bytes-of-ipv4-other-host-same-port", a: idOf(lw, 1, s), b: idOf(lw, 2, s)},
+		{name: "ipv6-differing-in-the-low-bytes-only-same-port", a: id6(1, s), b: idOf(lw, 1, s)},
+		{name: "link-local-other-host-same-port", a: idOf(ll, 1, s), b: idOf(ll, 2, s)},
+		{name: "link-local-same-host-other-port", a: idOf(ll, 1, s), b: idOf(ll, 1, s+1), sameHost: true},
+		{name: "link-local-and-global-same-port", a: idOf(ll, 1, s), b: id6(1, s)},
+	}
+}
+
+// how the client addresses of a scenario relate (for the distribution counts)
+func addrRelations(ids []int) []string {
+	set := map[string]bool{}
+	for _, n := range ids {
+		switch {
+		case famOf(n) == famMapped:
+			set["has-ipv4-in-16-bytes"] = true
+		case famOf(n) == famLL:
+			set["has-link-local-with-zone"] = true
+		case famOf(n) >= famLow4:
+			set["has-ipv6-with-ipv4-low-bytes"] = true
+		case isV6(n):
+			set["has-ipv6-global"] = true
+		default:
+			set["has-ipv4-in-4-bytes"] = true
+		}
+	}
+	for i, x := range ids {
+		for _, y := range ids[i+1:] {
+			ipEq := remoteIP(x).Equal(remoteIP(y)) && remoteZone(x) == remoteZone(y)
+			portEq := remotePort(x) == remotePort(y)
+			switch {
+			case ipEq && portEq:
+				set["pair-one-peer-in-two-spellings"] = true
+			case ipEq:
+				set["pair-same-host-other-port"] = true
+			case portEq:
+				set["pair-other-host-same-port"] = true
+			}
+			if !ipEq && isV6(x) != isV6(y) {
+				a, b := remoteIP(x).To16(), remoteIP(y).To16()
+				if string(a[12:]) == string(b[12:]) {
+					set["pair-ipv4-and-ipv6-same-low-bytes"] = true
+				}
+			}
+		}
+	}
+	var out []string
+	for k := range set {
+		out = append(out, k)
+	}
+	sortStrings(out)
+	return out
+}
+
+func perm(r *hx.Rand, n int) []int {
+	p := make([]int, n)
+	for i := range p {
+		p[i] = i
+	}
+	for i := n - 1; i > 0; i-- {
+		j := r.Intn(i + 1)
+		p[i], p[j] = p[j], p[i]
+	}
+	return p
+}
+
+func remap(ss [][]Step, ids ...int) [][]Step {
+	var out [][]Step
+	for k, s := range ss {
+		if k >= len(ids) {
+			break
+		}
+		var t []Step
+		for _, st := range s {
+			st.Conn = ids[k]
+			t = append(t, st)
+		}
+		out = append(out, t)
+	}
+	return out
+}
+
+// scenarios over every pair of addrPairs, per service
+func genAddr(r *hx.Rand, tier string) []Input {
+	var ins []Input
+	add := func(svc int, tr []Step) { ins = append(ins, Input{Svc: svc, Trace: number(svc, tr)}) }
+	sample := func(svc int, ss [][]Step, n int) {
+		ms := allMerges(ss)
+		if n >= len(ms) {
+			for _, m := range ms {
+				add(svc, m)
+			}
+			return
+		}
+		for i := 0; i < n; i++ {
+			add(svc, ms[r.Intn(len(ms))])
+		}
+	}
+	all := 1 << 30
+	nTCP, nSvc, nEmpty, nMC, nHammer := 1, 3, 1, 2, 1
+	if tier != "quick" {
+		nTCP, nSvc, nEmpty, nMC, nHammer = 6, 99, all, all, all
+	}
+	tcpSvcs := []int{LDAP, FTP, SMTP, TELNET, REDIS, MEMCACHED, HTTP}
+	for _, p := range addrPairs() {
+		a, b := p.a, p.b
+		// tftp: two uploads in flight at the same time - WRQ(A) WRQ(B) DATA(A) DATA(B) ... with the
+		// final (short / empty) blocks in both orders: EVERY interleaving
+		if p.sameHost {
+			// one bucket of the limiter: four datagrams in all
+			sample(TFTP, [][]Step{{tk(a, 2, 1), tk(a, 4, 1)}, {tk(b, 2, 2), tk(b, 4, 1)}}, all)
+			sample(TFTP, [][]Step{{tk(a, 2, 1), tk(a, 3, 1), tk(a, 7, 2)}, {tk(b, 2, 2)}}, nEmpty)
+		} else {
+			sample(TFTP, [][]Step{{tk(a, 2, 1), tk(a, 3, 1), tk(a, 4, 2)}, {tk(b, 2, 2), tk(b, 4, 1)}}, all)
+			sample(TFTP, [][]Step{{tk(a, 2, 3), tk(a, 3, 1), tk(a, 7, 2)}, {tk(b, 2, 3), tk(b, 7, 1), tk(b, 1, 3)}}, nEmpty)
+			sample(TFTP, [][]Step{{tk(a, 2, 1), tk(a, 4, 1), tk(a, 2, 2), tk(a, 4, 1)}, {tk(b, 3, 1), tk(b, 2, 1), tk(b, 4, 1)}}, nEmpty)
+		}
+		// memcached/udp: the only per-peer state is the limiter's bucket; B hammers, A must be served
+		sample(MCUDP, [][]Step{{tk(a, 2, 0), tk(a, 3, 0), tk(a, 1, 0)}, {tk(b, 2, 0), tk(b, 1, 0)}}, nMC)
+		if !p.sameHost {
+			sample(MCUDP, [][]Step{{tk(a, 2, 0), tk(a, 3, 0), tk(a, 1, 0), tk(a, 2, 0)},
+				{tk(b, 2, 0), tk(b, 2, 0), tk(b, 2, 0), tk(b, 2, 0), tk(b, 2, 0), tk(b, 2, 0)}}, nHammer)
+		}
+		// tcp services: session ids and the addresses of events; two connections of one peer
+		// (same address, same port) cannot be told apart by any observer and are left out
+		if p.samePeer {
+			continue
+		}
+		// (quick: three of the seven services per pair, drawn)
+		for k, i := range perm(r, len(tcpSvcs)) {
+			if k < nSvc {
+				sample(tcpSvcs[i], remap(fixedScripts(tcpSvcs[i], false), a, b), nTCP)
+			}
+		}
+	}
+	return ins
 }
 func cat(xs ...[]Step) []Step {
 	var out []Step
@@ -145,7 +321,7 @@ func genTokens(r *hx.Rand, svc, c, n int) []Step {
 			case 5, 6:
 				s = append(s, tk(c, 4, r.Range(1, 3)))
 			default:
-				s = append(s, tk(c, r.PickInt([]int{5, 6}), 0))
+				s = append(s, tk(c, r.PickInt([]int{5, 6, 7}), 0))
 			}
 		}
 	case MCUDP:
@@ -327,6 +503,15 @@ func corpus() []Input {
 		mk(TFTP, tk(a, 2, 1), tk(b, 2, 2), tk(a, 3, 1), tk(b, 3, 1), tk(a, 4, 2), tk(b, 4, 2), tk(a, 1, 3), tk(a, 1, 3), tk(b, 1, 1)),
 		// tftp: DATA without WRQ while another client has an upload open
 		mk(TFTP, tk(a, 2, 1), tk(b, 3, 1), tk(b, 4, 1), tk(a, 4, 1)),
+		// tftp: two IPv6 clients with ONE source port upload at the same time (a transfer table keyed by
+		// less than the whole address would merge them); then the same for 10.9.0.1 / ::ffff:10.9.0.2 /
+		// 2001:db8:9::a09:1 (same low bytes)
+		mk(TFTP, tk(id6(1, 5), 2, 1), tk(id6(2, 5), 2, 2), tk(id6(1, 5), 3, 1), tk(id6(2, 5), 4, 1), tk(id6(1, 5), 4, 2)),
+		mk(TFTP, tk(idOf(famV4, 1, 5), 2, 1), tk(idOf(famMapped, 2, 5), 2, 2), tk(idOf(famLow4, 1, 5), 2, 3),
+			tk(idOf(famV4, 1, 5), 4, 1), tk(idOf(famMapped, 2, 5), 4, 1), tk(idOf(famLow4, 1, 5), 4, 1)),
+		// tftp: 10.9.0.1:40005 in 4 bytes and in 16 bytes is ONE peer for the unchanged code: the DATA
+		// sent from the 16-byte spelling completes the upload begun from the 4-byte one
+		mk(TFTP, tk(idOf(famV4, 1, 5), 2, 1), tk(idOf(famMapped, 1, 5), 4, 1)),
 		// tftp: two clients behind one IP share the limiter (by design; not judged, only modelled)
 		mk(TFTP, tk(32, 1, 1), tk(32, 1, 2), tk(33, 1, 3), tk(32, 1, 1), tk(33, 1, 2), tk(32, 1, 3)),
 		// two smtp services in one process (a=17, c=51 on the first, b=34 on the second): nobody on the
@@ -356,6 +541,7 @@ func corpus() []Input {
 
 func generate(r *hx.Rand, tier string) []Input {
 	ins := corpus()
+	ins = append(ins, genAddr(r, tier)...)
 	nRandom, nHist := 22, 8
 	if tier != "quick" {
 		nRandom, nHist = 450, 100
